@@ -50,3 +50,12 @@ Tactic Notation "bridge" constr(k) :=
                   ba_insert ba_overwrite ror_msb0 rol_msb0 ba_ror ba_rol ba_reverse bs_ilshift bs_irshift ba_imul slice_ reversebytes
                   indices offset_slice_indices_lsb0];
   bridge_core.
+
+(* boolean comparisons of the kernels' result types, for the small-domain search that runs when a bridge no longer proves *)
+From BS Require Import CaseLib.
+Definition oz_eqb := opt_eqb Z.eqb.
+Definition slice_eqb (a b : pyslice) : bool := oz_eqb (s_start a) (s_start b) && oz_eqb (s_stop a) (s_stop b) && oz_eqb (s_step a) (s_step b).
+Definition rslice_eqb := res_eqb slice_eqb.
+Definition zoz_eqb (a b : Z * option Z * Z) : bool :=
+  let '(a1, a2, a3) := a in let '(b1, b2, b3) := b in (a1 =? b1) && oz_eqb a2 b2 && (a3 =? b3).
+Definition rzoz_eqb := res_eqb zoz_eqb.
